@@ -81,6 +81,14 @@ def cases(rng, tier):
         if rng.random() < 0.3: h = [h[0]] + [P * (c_ // P if c_ % P == 0 else rng.randrange(-2, 3)) for c_ in h[1:-1]] + [h[-1]]
         f1 = R.rpoly(rng, rng.randrange(1, 4), 4); g1 = R.rpoly(rng, rng.randrange(1, 4), 4)
         add(R.pscale(rng.choice([1, -1, 6]), R.pmul(h, f1)), R.pscale(rng.choice([1, -4, 1]), R.pmul(h, g1)), 'planted-factor-vanishing-mod-prime')
+    # coefficients at the machine-word boundaries, with and without a planted common factor
+    edge = [s_ * (2 ** e_ + d_) for e_ in (31, 32, 63, 64, 127) for d_ in (-1, 0, 1) for s_ in (1, -1)]
+    for _ in range(40 if not th else 400):
+        ep = lambda d: [rng.choice(edge) if rng.random() < 0.6 else rng.randrange(-3, 4) for _ in range(d)] + [rng.choice(edge)]
+        f = ep(rng.randrange(1, 4)); g = ep(rng.randrange(1, 3))
+        add(f, g, 'word-boundary-coefficients')
+        h = ep(rng.randrange(1, 3))
+        add(R.pmul(h, f), R.pmul(h, g), 'word-boundary-coefficients-planted')
     # coprime random pairs
     for k in range(100 if not th else 1000):
         bits = rng.choice([2, 8, 32, 64])
